@@ -14,7 +14,10 @@ import ExoVerif.Model.GenesisMods
    validateOperator on exportOperator and the operator infos / USD values initOperator rebuilds.
    x/exomint, x/feedistribution: `gen.ep` the epoch identifiers x/epochs holds, `gen.mp` / `gen.dp` the params;
    `gen.params` prints the params initMint / initDistr leave after exportMint / exportDistr (`init=panic` when the epoch
-   identifier is unknown). -/
+   identifier is unknown).
+   x/delegation rows: `gen.dl` one row of the delegation-state store (staker, asset, operator, share, pending);
+   `gen.pools` prints, per row, the pool the readers find for it on the re-imported x/assets stores and the amount the
+   row's share stands for (`missing` = ErrNoOperatorAssetKey). -/
 namespace ExoVerif.Driver.Genesis
 open ExoVerif.Genesis ExoVerif.Driver
 
@@ -83,18 +86,35 @@ def paramsRoundtrip (m : Mods) : String :=
   | some mp, some d => s!"init=ok mint={mp.mintDenom}:{mp.epochReward}:{mp.epochIdentifier} distr={d.params.epochIdentifier}:{d.params.communityTax}"
   | _, _ => "init=panic"
 
+/-- `gen.pools`: for every delegation row of the original chain (`gen.dl`, store order), what GetOperatorSpecifiedAssetInfo
+    and TokensFromShares answer on the state initAssets rebuilds from the export -/
+def poolsRoundtrip (a : Assets) (rows : List DelegRow) : String :=
+  match initAssets (exportAssets a) with
+  | none => "init=panic"
+  | some a' =>
+    let ls := rows.map (fun r =>
+      match poolOfRow a' r with
+      | none => s!"{r.key}=missing"
+      | some (p, amt) =>
+        let am := match amt with | some n => toString n | none => "err"
+        s!"{r.key}={p.total}:{p.pending}:{p.totalShare}:{p.opShare}:{am}")
+    "init=ok pools=[" ++ joinWith "," ls ++ "]"
+
 structure St where
   core : Core
   assets : Assets
   operator : OperatorMod
   mods : Mods
+  delegs : List DelegRow := []
 
 def step (st : St) (w : List String) : St × String :=
   let s := st.core
   let a := st.assets
   let o := st.operator
   match w with
-  | ["gen.reset"] => (⟨empty, emptyAssets, emptyOperator, emptyMods⟩, "ok")
+  | ["gen.reset"] => (⟨empty, emptyAssets, emptyOperator, emptyMods, []⟩, "ok")
+  | ["gen.dl", sk, asset, op, sh, pd] => ({ st with delegs := st.delegs ++ [⟨sk, asset, op, parseInt! sh, parseInt! pd⟩] }, "ok")
+  | ["gen.pools"] => (st, poolsRoundtrip a st.delegs)
   | ["gen.und", id, c, am, h] => ({ st with core := { s with unds := s.unds ++ [⟨id, parseInt! c, parseInt! am, parseInt! h⟩] } }, "ok")
   | ["gen.q", p, e, it] => ({ st with core := { s with queues := s.queues ++ [⟨parseNat! p, parseInt! e, it, []⟩] } }, "ok")
   | ["gen.q", p, e, it, recs] => ({ st with core := { s with queues := s.queues ++ [⟨parseNat! p, parseInt! e, it, recs.splitOn "+"⟩] } }, "ok")
@@ -127,6 +147,6 @@ def step (st : St) (w : List String) : St × String :=
   | ["gen.params"] => (st, paramsRoundtrip st.mods)
   | _ => (st, "bad-op")
 
-def main : IO Unit := runDriver (⟨empty, emptyAssets, emptyOperator, emptyMods⟩ : St) step
+def main : IO Unit := runDriver (⟨empty, emptyAssets, emptyOperator, emptyMods, []⟩ : St) step
 
 end ExoVerif.Driver.Genesis
